@@ -12,7 +12,8 @@
    error sets; it is not proved for all documents. *)
 From Coq Require Import ZArith List String Bool.
 From TV Require Import Py.Prelude Model.Schema Model.ImplInput Model.ImplExec Model.Envelope
-     Model.ImplValidate Model.SpecValidate Model.RunValidate Proofs.ValidateProofs Proofs.ValidateRules Gen.Wiring_gen Proofs.Wiring.
+     Model.ImplValidate Model.SpecValidate Model.RunValidate Proofs.ValidateProofs Proofs.ValidateRules Proofs.ValidateValues Proofs.ValidateSites Proofs.ValidateWalk
+     Gen.Wiring_gen Proofs.Wiring.
 Import ListNotations.
 Open Scope string_scope.
 Open Scope list_scope.
@@ -94,6 +95,45 @@ Theorem C07_undefined_spread_target_reported V doc :
   r_spread_targets V doc = false -> spread_target_errors (fragments doc) (frag_spreads (walked V doc)) <> [].
 Proof. intros H E. apply spread_targets_exact in E. congruence. Qed.
 
+(* 5.6.1 values of correct type, exact at every depth: a literal the specification rejects for its expected
+   type makes the rule raise or append at least one error, and the walk then refuses the document *)
+Theorem C07_incorrect_value_reported V
+  (Hin : forall n ifs f, vfind_type V n = Some (DInput ifs) -> In f ifs -> input_ty V (in_type f))
+  v path argloc c acc :
+  input_ty V c -> value_ok V v c = false ->
+  vct V path argloc v c acc = None \/ exists e es, vct V path argloc v c acc = Some (acc ++ e :: es).
+Proof. intros Hc H. exact (proj1 (proj2 (vct_exact V Hin v path argloc c acc Hc)) H). Qed.
+
+Theorem C07_incorrect_arguments_refuse V
+  (Hin : forall n ifs f, vfind_type V n = Some (DInput ifs) -> In f ifs -> input_ty V (in_type f))
+  path ds args st :
+  (forall d, In d ds -> input_ty V (in_type d)) -> args_ok V ds args = false -> aborted st = false ->
+  refusing (emit false (vct_arguments V path (Some ds) args) st).
+Proof.
+  intros Hd H Ha. apply flagged_values_refuse; [exact Ha|]. exact (proj2 (vct_arguments_exact V Hin path ds args Hd) H).
+Qed.
+
+(* the per-site rules, each exact (Proofs/ValidateSites.v): what the specification forbids at a site is reported *)
+Theorem C07_unknown_argument_reported path ds args :
+  forallb (fun a => existsb (fun d => String.eqb (in_name d) (a_name a)) ds) args = false ->
+  argument_names_errors path (Some ds) args <> [].
+Proof. intros H E. apply argument_names_exact in E. congruence. Qed.
+Theorem C07_missing_required_argument_reported path ds l args :
+  forallb (fun d => negb (is_non_null (in_type d)) || match in_default d with Some _ => true | None => false end ||
+                    existsb (fun a => String.eqb (a_name a) (in_name d)) args) ds = false ->
+  required_arguments_errors path (Some ds) l args <> [].
+Proof. intros H E. apply required_arguments_exact in E. congruence. Qed.
+Theorem C07_misplaced_directive_reported V path where_ l ds :
+  forallb (fun d => match s_directive V (d_name d) with Some dd => mem_str where_ (dd_locs dd) | None => true end) ds = false ->
+  valid_locations_errors V path where_ l ds <> [].
+Proof. intros H E. apply valid_locations_exact in E. congruence. Qed.
+
+(* whatever any rule reports or raises, at any point of the walk, the document is not accepted: acceptance is the
+   conjunction of all rules being quiet (C06_acceptance_decomposed), so one flagged rule suffices *)
+Theorem C07_any_flagged_rule_refuses V doc :
+  accepted V doc = true -> quiet (walk_phase_errs V doc) /\ quiet (cycle_rule (fragments doc)).
+Proof. intros H. apply accepted_iff_clean in H. apply validate_clean_iff in H. tauto. Qed.
+
 Print Assumptions C07_source_invokes_every_supported_rule.
 Print Assumptions C07_cycle_rule_exact.
 Print Assumptions C07_fragment_cycle_refuses.
@@ -108,3 +148,9 @@ Print Assumptions C07_repeated_input_field_reported.
 Print Assumptions C07_second_anonymous_operation_reported.
 Print Assumptions C07_unused_fragment_reported.
 Print Assumptions C07_undefined_spread_target_reported.
+Print Assumptions C07_incorrect_value_reported.
+Print Assumptions C07_incorrect_arguments_refuse.
+Print Assumptions C07_unknown_argument_reported.
+Print Assumptions C07_missing_required_argument_reported.
+Print Assumptions C07_misplaced_directive_reported.
+Print Assumptions C07_any_flagged_rule_refuses.
